@@ -13,10 +13,26 @@ ASSUMPTIONS = ["P-core: totality and error positions are proved for the lexer mo
                "line/column of an offset inside the file is C13's theorem"]
 
 
+def line_width(line):
+    """number of columns of one line under ast.FileInfo.SourcePos's rule: a tab advances to the next multiple of 8, every
+    byte that is not a UTF-8 continuation byte is one column"""
+    col = 0
+    for b in line:
+        if b == 9:
+            col += 8 - (col % 8)
+        elif (b & 0xC0) != 0x80:
+            col += 1
+    return col
+
+
 def pos_ok(data, e):
-    """does (line, col) exist in the input: 1 <= line <= number of lines, 1 <= col <= width(line)+1 (tab stops make columns
-    larger than byte counts, so the bound is on the offset: the reported offset must lie inside the file)"""
-    return 0 <= e["off"] <= len(data) and e["line"] >= 1 and e["col"] >= 1 and e["line"] <= data.count(b"\n") + 1
+    """does (line, col) exist in the input: the offset lies inside the file, 1 <= line <= number of lines, and
+    1 <= col <= width(line) + 1 (the position just after the last character of the line, where its line break or the
+    end of the file sits)"""
+    lines = data.split(b"\n")
+    if not (0 <= e["off"] <= len(data) and 1 <= e["line"] <= len(lines) and e["col"] >= 1):
+        return False
+    return e["col"] <= line_width(lines[e["line"] - 1]) + 1
 
 
 def run(ctx):
